@@ -108,6 +108,12 @@ def rewrites(rows):
         yield "format-name-" + style.__name__, [[row[0], row[1], style(row[2])] if k == "d" and row[1].lower() == "format" else row for row, k in zip(rows, kind)]
     yield "property-names-underscore", [[row[0], row[1].replace(" ", "_")] + row[2:] if k == "d" else row for row, k in zip(rows, kind)]
     yield "field-name-padded", [[row[0], " " + row[1] + "  "] + row[2:] if k == "f" else row for row, k in zip(rows, kind)]
+    if any(k == "f" and len(row) > 4 and row[4].strip() for row, k in zip(rows, kind)):
+        # blanks around the text of a length cell mean nothing, like blanks around any other cell
+        yield "length-padded", [row[:4] + [" " + row[4] + " "] + row[5:] if k == "f" and len(row) > 4 and row[4].strip() else row for row, k in zip(rows, kind)]
+        yield "length-tab-in-front", [row[:4] + ["\t" + row[4]] + row[5:] if k == "f" and len(row) > 4 and row[4].strip() else row for row, k in zip(rows, kind)]
+    if any(k == "d" and row[1].lower().replace("_", " ") == "allowed characters" for row, k in zip(rows, kind)):
+        yield "allowed-characters-padded", [[row[0], row[1], "  " + row[2] + " "] + row[3:] if k == "d" and row[1].lower().replace("_", " ") == "allowed characters" else row for row, k in zip(rows, kind)]
     yield "empty-mark-lower", [row[:3] + [row[3].lower()] + row[4:] if k == "f" else row for row, k in zip(rows, kind)]
     property_rows = [i for i, (row, k) in enumerate(zip(rows, kind)) if k == "d" and row[1].lower() != "format"]
     if len(property_rows) >= 2:
